@@ -13,8 +13,8 @@
 (*   Elements of type Z, T, F carry no bytes at all.                       *)
 (*                                                                         *)
 (* Grey zones (draft 12 is silent or self-contradictory) are classified    *)
-(* "grey" and never judged: a no-op inside a counted/typed container or an *)
-(* object, element type N, and more than 64 zero-byte elements.            *)
+(* "grey" and never judged: a no-op in key position, element type N, and   *)
+(* more than 64 zero-byte elements.  A no-op in value position is skipped. *)
 (*                                                                         *)
 (* State s = [st, why, ctx, ph, m, need, acc, lp, ev, done, pos]           *)
 (*   ctx  frames [k : "arr"|"obj", mode : "hdr"|"plain"|"counted"|"typed", *)
@@ -97,10 +97,13 @@ UbStartMarker(s, m) ==
                        !.ctx = Append(s.ctx, [k |-> "obj", mode |-> "hdr", rem |-> 0, et |-> 0, wantKey |-> TRUE])]
     [] OTHER -> UbStuck(s, "invalid", "unknown marker")
 
-NoopAllowed(s) == s.ctx = <<>> \/ (UbTop(s).k = "arr" /\ UbTop(s).mode = "plain")
+\* a no-op may stand wherever a value marker is expected (top level, element of
+\* a plain or counted array, value of a member of a plain or counted object); it
+\* is not a value and is not counted
+NoopAllowed(s) == s.ctx = <<>> \/ UbTop(s).mode \in {"plain", "counted"}
 
 UbValueByte(s, b) ==
-  IF b = mN THEN (IF NoopAllowed(s) THEN s ELSE UbStuck(s, "grey", "no-op inside counted container or object"))
+  IF b = mN THEN (IF NoopAllowed(s) THEN s ELSE UbStuck(s, "grey", "no-op in key position"))
   ELSE IF b = mArrE /\ s.ctx # <<>> /\ UbTop(s).k = "arr" /\ UbTop(s).mode = "plain"
        THEN UbDeliver(UbEmit(UbPop(s), EvArrE))
   ELSE IF b \in ValueMarkers THEN UbStartMarker(s, b)
@@ -130,7 +133,7 @@ UbStep(s, b) ==
       [] s.ph = "key" ->
            IF b = mObjE /\ UbTop(s).mode = "plain" THEN UbDeliver(UbEmit(UbPop(t), EvObjE))
            ELSE IF b \in IntMarkers THEN [t EXCEPT !.ph = "lenval", !.m = b, !.need = FixedSize(b), !.acc = <<>>, !.lp = "key"]
-           ELSE IF b = mN THEN UbStuck(t, "grey", "no-op inside counted container or object")
+           ELSE IF b = mN THEN UbStuck(t, "grey", "no-op in key position")
            ELSE UbStuck(t, "invalid", "key length marker expected")
       [] s.ph = "lenmark" ->
            IF b \in IntMarkers THEN [t EXCEPT !.ph = "lenval", !.m = b, !.need = FixedSize(b), !.acc = <<>>]
@@ -160,7 +163,7 @@ UbStep(s, b) ==
                 IF s1.ph = "value" THEN UbValueByte(s1, b)
                 ELSE IF b = mObjE THEN UbDeliver(UbEmit(UbPop(s1), EvObjE))
                 ELSE IF b \in IntMarkers THEN [s1 EXCEPT !.ph = "lenval", !.m = b, !.need = FixedSize(b), !.acc = <<>>, !.lp = "key"]
-                ELSE IF b = mN THEN UbStuck(s1, "grey", "no-op inside counted container or object")
+                ELSE IF b = mN THEN UbStuck(s1, "grey", "no-op in key position")
                 ELSE UbStuck(s1, "invalid", "key length marker expected")
       [] s.ph = "hdrtype" ->
            IF b \in ValueMarkers THEN [t EXCEPT !.ph = "hdrhash", !.ctx[Len(s.ctx)].et = b]
